@@ -91,6 +91,15 @@ fn check_result(what: &str, redeem: &Arc<RedeemNode>, prog: &Prog, any_wrong: bo
     let (pb, wb) = redeem.to_vec_with_witness();
     match decode_redeem(Family::Core, &pb, &wb) {
         Ok(d) => {
+            // route (D), decoding from bytes: the decoded witnesses have their node's target type
+            for x in d.as_ref().post_order_iter::<InternalSharing>() {
+                if let Inner::Witness(v) = x.node.inner() {
+                    if !v.is_of_type(&x.node.arrow().target) {
+                        return Err(format!("{}: RedeemNode::decode of the program's serialisation returns a witness of type {} at a node with target type {} (program {})", what, v.ty(), x.node.arrow().target, prog.render()));
+                    }
+                }
+            }
+            cx.label("decode route checked");
             let (pb2, wb2) = d.to_vec_with_witness();
             if pb2 != pb || wb2 != wb {
                 return Err(format!("{}: the program's serialisation decodes to a different program", what));
@@ -136,6 +145,7 @@ pub fn case(cx: &mut Case) -> CaseResult {
     let typed = type_check(prog, true).map_err(|e| harness_error(format!("generated IR rejected: {:?}; {}", e, prog.render())))?;
     prog.fingerprint(&mut cx.fp);
     let mut vb = ValBuilder::new();
+    vb.constructors_only = true; // witness values by plain constructors: the value decoders are not this check's subject (C10) and must not make the harness inconsistent
     let mut values: HashMap<Id, Value> = HashMap::new();
     let mut desc: Vec<String> = vec![];
     let mut any_wrong_nonzero = false;
